@@ -396,6 +396,8 @@ def acceptor_oracle(lines, blocks):
     connected = []       # j of successfully connected clients
     closed_conn = set()
     accepted = 0
+    client_addr = {}     # j -> `ip:port` the harness's client socket got from the kernel (getsockname after connect)
+    claimed = {}         # client address -> k of the connection whose callback was given it as peer address
     for i, s in enumerate(tr.steps):
         w = s["op"].split()
         evs = s["events"]
@@ -410,6 +412,26 @@ def acceptor_oracle(lines, blocks):
             j = len([x for x in tr.ops[:i + 1] if x == "client"])
             if not any(l.startswith("# client failed") for l in blocks[i]):
                 connected.append(j)
+            for l in blocks[i]:
+                t = l.split()
+                if l.startswith("# client ") and len(t) == 5 and t[3] == "local":
+                    client_addr[int(t[2])] = t[4]
+        # ---- the peer address handed to the new-connection callback (Socket::accept / sockets::accept fill it in)
+        for l in (blocks[i] if i < len(blocks) else []):
+            t = l.split()
+            if not (l.startswith("# peer ") and len(t) == 6 and t[4] == "kernel"):
+                continue
+            k, given, kernel = t[2], t[3], t[5]
+            if kernel != "?" and given != kernel:
+                fail("accept-peer-address", i, "the callback of connection %s was given the peer address %s, the kernel says the peer of that "
+                     "descriptor is %s" % (k, given, kernel))
+            elif given not in client_addr.values():
+                fail("accept-peer-address", i, "the callback of connection %s was given the peer address %s, which is the local address of "
+                     "none of the clients that connected (%s)" % (k, given, " ".join(sorted(client_addr.values())) or "none"))
+            elif given in claimed and int(claimed[given]) in open_conn:       # (a closed connection's port may be reused)
+                fail("accept-peer-address", i, "connections %s and %s were both given the peer address %s" % (claimed[given], k, given))
+            else:
+                claimed[given] = k
         if w[0] == "iter":
             iters += 1
         if s["it"] is not None and s["it"] != iters:
